@@ -494,7 +494,9 @@ def c08(tier, seed):
     for thr in ((1, 2, 4, 16) if q else (1, 2, 3, 4, 8, 16)):
         for mode in ("monitor", "jitter"):
             k += 1
-            runs.append(fb("h_io", "mon", "io", seed, k, thr, mode=mode, trials=14 if q else 100, big=0 if q else 1, livelock_prop="C08", timeout=600))
+            runs.append(fb("h_io", "mon", "io", seed, k, thr, mode=mode, trials=24 if q else 150, big=0 if q else 1, livelock_prop="C08", timeout=600))
+        k += 1
+        runs.append(fb("h_io", "mon", "io", seed, k, thr, mode="monitor", preempt=1, trials=16 if q else 100, big=0, livelock_prop="C08", timeout=600))
     for sp in ("FD_WAIT_REGISTERED", "MAINT_PUBLISH", "SCHEDULED", "SWITCH_PRE", "STEAL"):
         for thr in ((4,) if q else (2, 8)):
             k += 1
@@ -515,12 +517,14 @@ def c08(tier, seed):
                 "write/send/writev/sendto/sendmsg calls with random sizes, next to a ticker; (1) EOF after close; (2) the five ways of making a call "
                 "non-blocking (and back); (3) invalid descriptors {-1,-7,closed,rlim_max,rlim_max+5,2^20,INT_MAX} through eight calls; (4) close while "
                 "1-3 readers are blocked; (5) 2-4 acceptors x connectors on one listening socket and 2-5 receivers on one datagram socket; (6) connect "
-                "to a dead port. Oracles: stream position-exact (complete, ordered, unduplicated, never empty), no EAGAIN in blocking mode, non-blocking "
+                "to a dead port; (7) reader and writer blocked on one descriptor in opposite directions with an idle peer; (8) UDP round trips "
+                "with addresses, non-blocking send on a full socket, writer woken by close, non-blocking connect, accept with an address buffer. Oracles: stream position-exact (complete, ordered, unduplicated, never empty), no EAGAIN in blocking mode, non-blocking "
                 "calls do not context-switch, invalid descriptors give EBADF (ASan with and without NDEBUG for the fd tables), datagrams exactly once, "
                 "blocked fibers resumed (quiescence), ticker progress.",
                 min_events={"io_stream_bytes_transferred": 100000, "io_calls_that_suspended_the_fiber": 100, "io_nonblocking_probes": 3,
                             "io_invalid_descriptor_probes": 50, "io_readers_woken_by_close": 2, "io_connections_accepted_with_several_acceptors": 10,
-                            "io_datagrams_with_several_receivers": 100, "io_short_writes": 1},
+                            "io_datagrams_with_several_receivers": 100, "io_short_writes": 1,
+                            "io_opposite_direction_trials": 1, "io_udp_roundtrips": 20},
                 assumptions=ASSUME_COMMON + ["only AF_UNIX / AF_INET loopback sockets and pipes; kernel-dependent short-count sizes are not compared",
                                              "callers read errno through a fresh __errno_location() after a blocking call (a fiber may migrate)"])
 
